@@ -897,6 +897,17 @@ FLOW_FACTS = {
 }
 
 
+def _load_flow_json():
+	"""further pinned functions, kept as data (harness/flow_facts.json: module -> files, facts with their expected statements and what they say)"""
+	import json
+	p = Path(__file__).resolve().parent / 'flow_facts.json'
+	for module, d in json.loads(p.read_text()).items():
+		FLOW_FACTS[module] = (d['files'], [(f['name'], f['file'], f['qual'], f['want'], f['doc']) for f in d['facts']])
+
+
+_load_flow_json()
+
+
 def flow_facts(repo: Path, out_dir: Path, report: dict):
 	"""Gen/PyTreeFlow.lean, PyArchiveReader.lean, PyLoadFlow.lean: one Boolean per pinned function (its statements are exactly the expected ones)"""
 	b = lambda x: 'true' if x else 'false'
